@@ -157,7 +157,15 @@ class Program:
             if not have or not self.small(a):
                 return
             l = rnd.choice(have)
-            self.record({"op": op, "a": a, "dst": dst, "dims": [l]}, lambda: regs.__setitem__(dst, regs[a].cumsum(l)))
+            if rnd.random() < 0.12:
+                missing = [m for m in self.ucfg["canon"] if m not in have]
+                if missing:
+                    l = rnd.choice(missing)         # a dimension the array does not have: must be refused, nothing may change
+            if rnd.random() < 0.4:
+                # in place: the array itself becomes the result (or stays exactly as it was when the call is refused)
+                self.record({"op": "cumsum", "a": a, "dst": a, "dims": [l]}, lambda: regs[a].cumsum(l, inplace=True))
+            else:
+                self.record({"op": op, "a": a, "dst": dst, "dims": [l]}, lambda: regs.__setitem__(dst, regs[a].cumsum(l)))
         elif op == "read":
             key, pykey = self.rand_key(a, writes=False)
             self.record({"op": op, "a": a, "dst": dst, "key": key}, lambda: regs.__setitem__(dst, regs[a][pykey]))
